@@ -301,7 +301,7 @@ pub fn run_pools(ctx: &mut Ctx) {
     });
 }
 
-/// Time functions on a grid: parse_time / parse_time_with_zone on every combination of 7 years,
+/// Time functions on a grid: parse_time / parse_time_with_zone on every combination of 14 years (1066 .. 9999),
 /// 7 dates, 5 times of day, 8 fractions / 7 zones written in the three numeric layouts the
 /// reference decides, and format_time on 16 instants x every format of the pool.
 pub struct C04Times;
@@ -322,7 +322,7 @@ impl Check for C04Times {
 }
 
 pub fn run_times(ctx: &mut Ctx) {
-    const YEARS: [i32; 7] = [1970, 1999, 2000, 2023, 2024, 2038, 2100];
+    const YEARS: [i32; 14] = [1970, 1999, 2000, 2023, 2024, 2038, 2100, 1066, 1500, 1677, 1678, 2262, 2263, 9999];
     const DATES: [(u32, u32); 7] = [(1, 1), (2, 28), (2, 29), (3, 1), (12, 31), (6, 15), (12, 3)];
     const TIMES: [(u32, u32, u32); 5] = [(0, 0, 0), (23, 59, 59), (13, 51, 55), (12, 0, 0), (0, 0, 1)];
     const FRACS: [&str; 8] = ["", ".5", ".25", ".360", ".360367", ".000001", ".999999", ".123456789"];
@@ -336,8 +336,8 @@ pub fn run_times(ctx: &mut Ctx) {
     let space = format!("parse_time: {} date-times x 8 fractions; parse_time_with_zone: {} date-times x 7 zones; format_time: 16 instants x {} formats", YEARS.len() * DATES.len() * TIMES.len(), YEARS.len() * DATES.len() * TIMES.len(), fmts.len());
     run_enum(ctx, "C04.times", total, &space, |idx| {
         let pick = |mut r: u64| {
-            let y = YEARS[(r % 7) as usize];
-            r /= 7;
+            let y = YEARS[(r % 14) as usize];
+            r /= 14;
             let (m, d) = DATES[(r % 7) as usize];
             r /= 7;
             let (hh, mi, ss) = TIMES[(r % 5) as usize];
